@@ -24,6 +24,8 @@ type fakeConn struct {
 	deadlines int64
 	written   int64
 	wtail     []byte
+	keep      bool   // keep everything the client writes (tag learning)
+	wall      []byte // all bytes written, when keep is set
 }
 
 func newFakeConn() *fakeConn {
@@ -32,11 +34,26 @@ func newFakeConn() *fakeConn {
 	return c
 }
 
-func (c *fakeConn) feed(b []byte) {
+// feed hands bytes to the client; placeholder tags are replaced by the client's real ones.
+func (c *fakeConn) feed(b []byte) { c.feedRaw(retag(b)) }
+
+func (c *fakeConn) feedRaw(b []byte) {
 	c.mu.Lock()
 	c.buf = append(c.buf, b...)
 	c.cond.Broadcast()
 	c.mu.Unlock()
+}
+
+func (c *fakeConn) wroteLen() int {
+	c.mu.Lock()
+	defer c.mu.Unlock()
+	return len(c.wall)
+}
+
+func (c *fakeConn) wroteSince(mark int) []byte {
+	c.mu.Lock()
+	defer c.mu.Unlock()
+	return append([]byte{}, c.wall[mark:]...)
 }
 
 func (c *fakeConn) feedEOF() {
@@ -95,6 +112,9 @@ func (c *fakeConn) Write(p []byte) (int, error) {
 		return 0, net.ErrClosed
 	}
 	c.written += int64(len(p))
+	if c.keep {
+		c.wall = append(c.wall, p...)
+	}
 	c.wtail = append(c.wtail, p...)
 	if len(c.wtail) > 256 {
 		c.wtail = append(c.wtail[:0], c.wtail[len(c.wtail)-128:]...)
